@@ -15,9 +15,9 @@ PY
 rc=$?
 if [ $rc -eq 0 ]; then
   (cd "$WT" && /venv/bin/python -m pytest -q -p no:cacheprovider --timeout=900 --continue-on-collection-errors 2>&1 | tail -1)
-  PHYLIB_REPO="$WT" /verif/bin/check "$PID" --tier quick 2>&1 | grep -E "VIOLATION|INTERNAL|tier done|outside" | head -5
-  for f in /verif/work/alt-replays/${PID}_*.json; do [ -f "$f" ] && /venv/bin/python -c "
+  TAG="mut_$$"; PHYLIB_REPO="$WT" VT_RUN_TAG="$TAG" /verif/bin/check "$PID" --tier quick 2>&1 | grep -E "VIOLATION|INTERNAL|tier done|outside" | head -5
+  for f in /verif/work/alt-replays/$TAG/${PID}_*.json; do [ -f "$f" ] && /venv/bin/python -c "
 import json,sys; d=json.load(open('$f')); print('  replay codes', d['codes'], d['kind'])"; done
 fi
-rm -f /verif/work/alt-replays/${PID}_*.json
+rm -f /verif/work/alt-replays/$TAG/${PID}_*.json
 git -C /repo worktree remove --force "$WT"
